@@ -135,6 +135,13 @@ def render_all(root, visited, prev):
     """every renderer in every option combination; returns what changed (empty list = read-only)"""
     D = py_trees.display
     changed = []
+    if "/xw" not in Blackboard.metadata:
+        # a client outside the tree holding an exclusive and a plain write registration, so that the blackboard part of
+        # the dot graph has all three kinds of edges to draw
+        probe = py_trees.blackboard.Client(name="render_probe")
+        probe.register_key(key="/xw", access=py_trees.common.Access.EXCLUSIVE_WRITE)
+        probe.register_key(key="/xv", access=py_trees.common.Access.WRITE)
+        probe.register_key(key="/xr", access=py_trees.common.Access.READ)
     before = snapshot(root)
 
     def check(what):
